@@ -620,7 +620,7 @@ class LinkedGen:
             if n:
                 sim.s[to] = [x for x in l if x % 2 == 0]
             return [f"mk_filter to={to}{o}"]
-        sim.s[to] = list(l) if c == "mk_copy_shallow" else [x + 1000 for x in l]
+        sim.s[to] = list(l) if c == "mk_copy_shallow" else [(x + 1000) % 2**64 for x in l]
         return [f"{c} to={to}{o}"]
 
     def sort_op(self, rng, sim, k):
@@ -942,7 +942,7 @@ class LinkedGen:
         k = rng.randint(1, len(la) + 2)
         kind = rng.choice(["mk_copy_shallow", "mk_copy_deep", "mk_filter", f"mk_sub b=0 e={len(la) - 1}"])
         out.append(f"{kind} to={to} fail={k}{oa}")
-        res = {"mk_copy_shallow": list(la), "mk_copy_deep": [x + 1000 for x in la], "mk_filter": [x for x in la if x % 2 == 0]}.get(kind, list(la))
+        res = {"mk_copy_shallow": list(la), "mk_copy_deep": [(x + 1000) % 2**64 for x in la], "mk_filter": [x for x in la if x % 2 == 0]}.get(kind, list(la))
         if k > len(res) + 1 or sim.ctor_for(a) != "new":
             sim.s[to] = res
         return out
